@@ -215,11 +215,30 @@ def eval_case(case):
             raw2 = K.tz_decode('sig', s2.signature)
             h2 = s2.hash()
             want2 = K.tz_encode('o', K.blake(forged2 + raw2))
+            try:
+                ok2 = key.verify(s2.signature, spec_wm + forged2) is True
+            except Exception:
+                ok2 = False
+            if not ok2 or (case['independent'] and not K.indep_verify(curve, pub, spec_wm + forged2, raw2)):
+                viol.append((f'group-signature-invalid-after-derivation:{curve}', 'a signed group extended by one transaction and signed again carries a signature that does not verify '
+                             'over 0x03 ++ its own forged bytes' + (' (it is the parent\'s signature)' if s2.signature == sig else ''),
+                             {**base, 'signature': s2.signature, 'parent_signature': sig, 'message': (spec_wm + forged2).hex()}))
             if forged2 == forged or h2 != want2:
                 viol.append(('group-hash-after-derivation', f'group extended by one transaction and signed again: hash() = {h2}, expected {want2} '
                              f'(Blake2b-256 of its own forged bytes ++ signature); the parent group hashed to {h}', {**base, 'parent_hash': h, 'derived_hash': h2}))
         except Exception as e:
             viol.append(('group-hash-after-derivation', f'extending a signed group and signing again raised {K.canon_exc(e)}', {**base}))
+    # ---- the same group carrying a signature from elsewhere (restored from JSON, another key / chain): sign() signs THESE bytes
+    if curve != 'BL' or case['independent']:
+        try:
+            foreign = K.tz_encode('BLsig' if curve == 'BL' else 'sig', bytes([7]) * K.SIG_LEN[curve])
+            s3 = OperationGroup(context=StubContext(key), contents=contents, chain_id=chain, branch=branch, signature=foreign).sign()
+            ok3 = key.verify(s3.signature, msg) is True
+        except Exception as e:
+            ok3 = False
+        if not ok3:
+            viol.append((f'group-signature-invalid-on-resign:{curve}', 'a group that already carries a signature (restored with signature=…) is signed: the result does not verify over the '
+                         'watermarked bytes', {**base, 'message': msg.hex()}))
     # unsigned group: binary_payload / hash must refuse
     try:
         g.binary_payload()
